@@ -91,10 +91,17 @@ def generate(o):
             raise KeyError("safe_scale = ...")
         quant_scale = to_lean(ss[0][1], env)
         fa = assignments(fn, "factor")
-        if len(fa) != 1 or not (isinstance(fa[0][1], ast.BinOp) and isinstance(fa[0][1].op, ast.Pow)
-                                and ast.unparse(fa[0][1].left) in ("decimal.Decimal('10')", "decimal.Decimal(10)")):
-            raise KeyError("factor = Decimal(10) ** <exp>")
-        quant_exp = to_lean(fa[0][1].right, env)
+        if len(fa) != 1:
+            raise KeyError("factor = ...")
+        fe = fa[0][1]
+        if isinstance(fe, ast.BinOp) and isinstance(fe.op, ast.Pow) and ast.unparse(fe.left) in ("decimal.Decimal('10')", "decimal.Decimal(10)"):
+            quant_exp = to_lean(fe.right, env)  # computed in the caller's ambient context: listed by `ambient_reads`
+        elif (isinstance(fe, ast.Call) and ast.unparse(fe.func) == "decimal.Decimal" and len(fe.args) == 1 and not fe.keywords
+              and isinstance(fe.args[0], ast.Tuple) and len(fe.args[0].elts) == 3
+              and ast.unparse(fe.args[0].elts[0]) == "0" and ast.unparse(fe.args[0].elts[1]) == "(1,)"):
+            quant_exp = to_lean(fe.args[0].elts[2], env)  # Decimal((0, (1,), <exp>)): built from its parts, no context involved
+        else:
+            raise KeyError("factor = Decimal(10) ** <exp> | Decimal((0, (1,), <exp>))")
         q = [n for n in ast.walk(fn) if isinstance(n, ast.Call) and isinstance(n.func, ast.Attribute) and n.func.attr == "quantize"]
         if len(q) != 1 or ast.unparse(q[0].args[0]) != "factor" or ast.unparse(q[0].func.value) != "decimal_value":
             raise KeyError("decimal_value.quantize(factor, ...)")
@@ -127,6 +134,62 @@ def generate(o):
         if "context" not in {k.arg for k in q[0].keywords} or ast.unparse({k.arg: k.value for k in q[0].keywords}["context"]) != "context":
             raise KeyError("quantize(..., context=context)")
         return [quant_scale, quant_exp, pad, prec, scope]
+
+    AMBIENT_CALLS = ("decimal.getcontext", "decimal.localcontext", "decimal.setcontext", "getcontext", "localcontext", "setcontext",
+                     "os.getenv", "os.environ.get", "time.time", "time.localtime", "time.timezone", "sys.get_int_max_str_digits",
+                     "sys.getdefaultencoding", "sys.getrecursionlimit")
+    AMBIENT_PREFIX = ("locale.", "random.", "threading.", "os.environ", "sys.flags", "sys.float_repr_style", "sys.float_info", "sys.int_info",
+                      "decimal.DefaultContext", "decimal.BasicContext", "decimal.ExtendedContext")
+    AMBIENT_SUFFIX = (".now", ".today", ".utcnow")
+    CONTEXT_METHODS = ("quantize", "normalize", "to_integral", "to_integral_value", "to_integral_exact", "sqrt", "exp", "ln", "log10", "fma", "scaleb",
+                       "next_minus", "next_plus", "next_toward", "remainder_near", "rotate", "shift", "logb", "compare", "max", "min")
+
+    def ambient_reads():
+        """What the cast functions read of the interpreter's state outside their arguments: [factory reads, other parsers' reads],
+        each a list of `function: expression`.  Recognised: the thread's decimal context (`decimal.getcontext()` / `localcontext()`,
+        the module's template contexts, Decimal arithmetic operators and context-sensitive Decimal methods called without an explicit
+        `context=` inside the factory), locale / environment / clock / random / `sys` settings."""
+        def scan(fn, label, decimal_locals):
+            out = []
+            for n in ast.walk(fn):
+                txt = None
+                if isinstance(n, ast.Call):
+                    f = ast.unparse(n.func)
+                    if f in AMBIENT_CALLS or f.endswith(AMBIENT_SUFFIX):
+                        txt = ast.unparse(n)
+                    elif decimal_locals is not None and isinstance(n.func, ast.Attribute) and n.func.attr in CONTEXT_METHODS \
+                            and ast.unparse(n.func.value) in decimal_locals \
+                            and "context" not in {k.arg for k in n.keywords}:
+                        txt = ast.unparse(n)
+                elif isinstance(n, (ast.Attribute, ast.Name)) and ast.unparse(n).startswith(AMBIENT_PREFIX):
+                    txt = ast.unparse(n)
+                elif decimal_locals is not None and isinstance(n, ast.BinOp):
+                    sides = [ast.unparse(n.left), ast.unparse(n.right)]
+                    if any(x in decimal_locals or x.startswith("decimal.Decimal(") for x in sides):
+                        txt = ast.unparse(n)
+                elif decimal_locals is not None and isinstance(n, ast.UnaryOp) and isinstance(n.op, (ast.USub, ast.UAdd)) \
+                        and (ast.unparse(n.operand) in decimal_locals or ast.unparse(n.operand).startswith("decimal.Decimal(")):
+                    txt = ast.unparse(n)
+                if txt is not None and not any(txt in o_ for o_ in out):
+                    out.append("%s: %s" % (label, txt))
+            return out
+        call = tl.func("__call__", "DecimalFactory")
+        dlocals = {"decimal_value", "factor", "quantized_value"}
+        fac = scan(call, "DecimalFactory.__call__", dlocals) + scan(tl.func("new_factory", "DecimalFactory"), "DecimalFactory.new_factory", dlocals)
+        fac += scan(ty.func("parse_decimal"), "parse_decimal", set())
+        oth = []
+        names = []
+        for _k, v in dmap("ORSO_TO_PYTHON_PARSER")():
+            if v not in names and v != "parse_decimal":
+                names.append(v)
+        for nm in names:
+            oth += scan(ty.func(nm), nm, set())
+        for n in ast.walk(ty.tree):
+            if isinstance(n, ast.ClassDef) and n.name == "OrsoTypes":
+                for m in n.body:
+                    if isinstance(m, ast.FunctionDef) and m.name == "parse":
+                        oth += scan(m, "OrsoTypes.parse", set())
+        return [sorted(fac), sorted(oth)]
 
     def limit_exprs():
         """`if length:` and the `[:stop]` slice of parse_varchar / parse_bytes."""
@@ -325,6 +388,7 @@ def generate(o):
     dd = o.item("cast.decimal_defaults", dec_defaults, [38, 21])
     fa = o.item("cast.factory", factory, ["ROUND_HALF_EVEN", 3, 28])
     fx = o.item("cast.expr.factory", factory_exprs, ["(min scale 28)", "(-safe_scale)", "(min scale 3)", "precision", "call"])
+    am = o.item("cast.ambient_reads", ambient_reads, [[], []])
     lx = o.item("cast.expr.limit", limit_exprs, [["(length ≠ 0)", "length"], ["(length ≠ 0)", "length"]])
     pair = lambda p: "(%s, %s)" % (lean_str(p[0]), lean_str(p[1]))
     t = HEADER + "namespace Gen.Cast\n"
@@ -363,5 +427,10 @@ def generate(o):
           "def defaultGuard (truthy isNone isInst : Prop) : Prop := %s\n" % dc[0])
     t += "instance (a b c : Prop) [Decidable a] [Decidable b] [Decidable c] : Decidable (defaultGuard a b c) := by unfold defaultGuard; infer_instance\n"
     t += "def defaultCast : String := %s\n" % lean_str(dc[1])
+    t += ("/-- what DecimalFactory.__call__ / new_factory / parse_decimal read of the interpreter's state outside their arguments (the calling\n"
+          "thread's decimal context: `decimal.getcontext()`, Decimal operators, context-sensitive Decimal methods without `context=`; locale, environment,\n"
+          "clock, `sys` settings), as `function: expression` -/\n"
+          "def factoryAmbient : List String := %s\n" % lean_list(am[0], lean_str))
+    t += "/-- the same for the other parsers of ORSO_TO_PYTHON_PARSER and OrsoTypes.parse -/\ndef parserAmbient : List String := %s\n" % lean_list(am[1], lean_str)
     t += "end Gen.Cast\n"
     o.files["Cast.lean"] = t
